@@ -23,6 +23,10 @@ package main
 //	EV <valKey> <roundOffset> <kind>                      evidence placed in the builder's pool before the block is sealed; the
 //	                                                      evidence's round = parent number + roundOffset (0 = the one round that
 //	                                                      is slashable in this block). kind: ok | same | badsig | badidx | one | garbage
+//	WK                                                    worker mode: the transaction lines of this block are CANDIDATES (nonces are
+//	                                                      assigned per sender from the state at the start of the block: k-th candidate of
+//	                                                      a sender gets nonce+k(+offset)); the builder runs miner/worker.go's
+//	                                                      commitTransactions loop over them (price-and-nonce order, Pop/Shift per error class)
 //	FS                                                    finish this block through the forged path: the EV lines of this block are
 //	                                                      RLP-encoded straight into header.SlashData and EndBlock runs with isSeal=false
 //	mods: p=<gasPrice GLu> g=<gasLimit> n=<nonce offset, may be negative> v=<tx value LU>
@@ -89,6 +93,49 @@ var contractCode = [][]byte{
 	},
 }
 
+// k5: "pool-sensitive" arithmetic. With a = calldata[0], b = calldata[32], c = calldata[64] it stores, at slots 0x10.., the
+// results of SDIV SMOD DIV MOD (a op b), ADDMOD MULMOD (a, b, c), EXP (a^b), SIGNEXTEND (a, b), SHL SHR SAR (shift a, value b).
+// Zero divisors / moduli, shifts >= 256 and out-of-range SIGNEXTEND take the branches whose result cell comes straight from
+// the interpreter's recycled integer pool; storing the results makes them part of the state root.
+func init() {
+	var code []byte
+	load := func(off byte) { code = append(code, 0x60, off, 0x35) } // PUSH1 off CALLDATALOAD
+	store := func(slot byte) { code = append(code, 0x60, slot, 0x55) }
+	// prologue: stack = [c, b, a] (a on top). The operands of every operation are then DUPlicated, so that no cell is
+	// recycled between the operand pushes and the operation: the operation's result cell comes from the pool's HISTORY
+	// (cells left by earlier executions of this process), not from a cell this program has just put back.
+	load(0x40)
+	load(0x20)
+	load(0x00)
+	slot := byte(0x10)
+	for _, opc := range []byte{0x05, 0x07, 0x04, 0x06, 0x0a, 0x0b, 0x1b, 0x1c, 0x1d} { // SDIV SMOD DIV MOD EXP SIGNEXTEND SHL SHR SAR
+		code = append(code, 0x81, 0x81, opc) // DUP2 DUP2 op   (top = a, next = b)
+		store(slot)
+		slot++
+	}
+	for _, opc := range []byte{0x08, 0x09} { // ADDMOD MULMOD
+		code = append(code, 0x82, 0x82, 0x82, opc) // DUP3 DUP3 DUP3 op   (a, b, c)
+		store(slot)
+		slot++
+	}
+	code = append(code, 0x00)
+	contractCode = append(contractCode, code)
+
+	// k6: "pool dirtier": leaves ~60 non-zero integers (a+1, a+2, ... with a = calldata[0]) in the interpreter's recycled
+	// integer pool and changes no state. Never called by a scenario transaction; the harness runs it on a throw-away StateDB
+	// before a re-execution to give the process a different interpreter history.
+	var d []byte
+	d = append(d, 0x60, 0x00, 0x35) // a
+	for i := 1; i <= 30; i++ {
+		d = append(d, 0x80, 0x60, byte(i), 0x01) // DUP1 PUSH1 i ADD
+	}
+	for i := 0; i < 31; i++ {
+		d = append(d, 0x50) // POP
+	}
+	d = append(d, 0x00)
+	contractCode = append(contractCode, d)
+}
+
 func contractAddr(i int) common.Address {
 	return common.BytesToAddress([]byte{0xc0, 0xde, 0x00, byte(i + 1)})
 }
@@ -134,6 +181,7 @@ type world struct {
 	users   int
 	pool    *big.Int
 	ver     int
+	gasLim  uint64 // genesis gas limit (0 = chainkit default)
 	gvals   []genVal
 	kit     *chainkit.Kit
 	yp      *params.YouParams
@@ -191,6 +239,8 @@ func parseWorld(lines []string) (*world, []string, error) {
 			w.pool = bigOf(kv[1])
 		case "ver":
 			w.ver, _ = strconv.Atoi(kv[1])
+		case "gl":
+			w.gasLim, _ = strconv.ParseUint(kv[1], 10, 64)
 		}
 	}
 	if w.users < 1 || w.users > 40 {
@@ -227,7 +277,7 @@ func (w *world) start() error {
 	for i := 0; i < maxValKeys; i++ {
 		w.keyOf[chainkit.Addr(chainkit.Key("val", i))] = i
 	}
-	cfg := chainkit.Config{Alloc: map[common.Address]*big.Int{}, Code: map[common.Address][]byte{}, Version: params.YouVersion(w.ver)}
+	cfg := chainkit.Config{Alloc: map[common.Address]*big.Int{}, Code: map[common.Address][]byte{}, Version: params.YouVersion(w.ver), GasLimit: w.gasLim}
 	for i := 0; i < w.users; i++ {
 		k := chainkit.Key("user", i)
 		w.userKey = append(w.userKey, k)
@@ -261,6 +311,9 @@ func (w *world) stop() {
 
 func (w *world) headerLines() []string {
 	out := []string{fmt.Sprintf("W users=%d pool=%s ver=%d", w.users, w.pool, w.ver)}
+	if w.gasLim != 0 {
+		out[0] += fmt.Sprintf(" gl=%d", w.gasLim)
+	}
 	for _, g := range w.gvals {
 		out = append(out, fmt.Sprintf("GV %d %d %s %d", g.key, g.role, g.token, g.status))
 	}
@@ -276,7 +329,7 @@ type op struct {
 	line string
 }
 
-var opArity = map[string]int{"B": 1, "T": 3, "K": 4, "VC": 7, "VU": 5, "VD": 3, "VW": 4, "VS": 3, "VT": 2, "DA": 3, "DS": 3, "DT": 2, "RAW": 2, "EV": 3, "FS": 0}
+var opArity = map[string]int{"B": 1, "T": 3, "K": 4, "VC": 7, "VU": 5, "VD": 3, "VW": 4, "VS": 3, "VT": 2, "DA": 3, "DS": 3, "DT": 2, "RAW": 2, "EV": 3, "FS": 0, "WK": 0}
 
 func parseOp(line string) (op, error) {
 	fs := strings.Fields(line)
@@ -367,6 +420,9 @@ func (w *world) makeTx(o op, curNonce func(common.Address) uint64) (*types.Trans
 			data = d
 		}
 		value, gas = bigOf(o.f[3]), 200000
+		if c == 5 {
+			gas = 400000
+		}
 	case "VC":
 		vk := chainkit.Key("val", o.valKey())
 		role, _ := strconv.Atoi(o.f[2])
